@@ -2,7 +2,7 @@
     Model: Merge.v (follows /repo's mergeable / mergemany / merge_as_union / simplify_* / numbers_to_type). *)
 From Coq Require Import ZArith List.
 From AwkV Require Import Base Layout Valid Types Carry.
-From AwkMerge Require Import Merge Proofs_C08 Proofs_MM Proofs_Simplify Proofs_SU.
+From AwkMerge Require Import Merge Proofs_C08 Proofs_MM Proofs_MML Proofs_Concat Proofs_Simplify Proofs_SU.
 Import ListNotations.
 Open Scope Z_scope.
 
@@ -43,6 +43,37 @@ Theorem mergemany_valid_partial : forall s cs c,
   mergemany cs = Ok c -> valid_b c = true /\ has_sk s c = true.
 Proof. exact mergemany_valid_partial_pf. Qed.
 Print Assumptions mergemany_valid_partial.
+
+(* ... its leaf dtype is NumPy's promotion of the operands' leaf dtypes (folded left to right) ... *)
+Theorem mergemany_dtype_partial : forall s cs c,
+  (2 <= length cs)%nat ->
+  Forall (fun c => has_sk s c = true) cs -> Forall (fun c => valid_b c = true) cs ->
+  mergemany cs = Ok c ->
+  leaf_dt c = fold_left numpy_promote (map leaf_dt cs) (leaf_dt (hd Empty cs)).
+Proof. exact mergemany_dtype_partial_pf. Qed.
+Print Assumptions mergemany_dtype_partial.
+
+(* ... and ak.concatenate(axis=0, mergebool=True) of such operands is that single mergemany: one batch, no
+   union, for either value of [merge] *)
+Theorem concat_app_partial : forall s merge_ cs,
+  (2 <= length cs)%nat ->
+  Forall (fun c => has_sk s c = true) cs -> Forall (fun c => valid_b c = true) cs ->
+  exists c, concat_model merge_ true cs = Ok c /\ valid_b c = true /\ has_sk s c = true /\
+            to_list c = Ok (concat (map (fun x => map (deep_cast (leaf_dt c)) (vals x)) cs)).
+Proof. exact concat_app_partial_pf. Qed.
+Print Assumptions concat_app_partial.
+
+(* (b)+(e), option with non-option: the first operand has the full skeleton, the later ones may lack option
+   levels the first one has ([has_skL]); e.g. [option[list[int16]], list[bool], option[list[int16]]].
+   (When the option operand is not the first, the C++ goes through reverse_merge: tests only.) *)
+Theorem mergemany_option_mix_partial : forall s a others,
+  others <> [] -> has_sk s a = true -> Forall (fun c => has_skL s c = true) others ->
+  Forall (fun c => valid_b c = true) (a :: others) ->
+  exists c, mergemany (a :: others) = Ok c /\ has_sk s c = true /\ valid_b c = true /\
+            Forall (fun x => to_list x = Ok (vals x)) (a :: others) /\
+            to_list c = Ok (concat (map (fun x => map (deep_cast (leaf_dt c)) (vals x)) (a :: others))).
+Proof. exact mergemany_option_mix_pf. Qed.
+Print Assumptions mergemany_option_mix_partial.
 
 (* (c) merge_as_union keeps both operands' values in order, and is valid when neither operand is a union
    (all node classes) *)
